@@ -17,10 +17,14 @@ Streams (three-way, DESIGN 5.C02)
            exact, TypeError <-> none, on the same inputs - validates the specification
   argbind  the direct oracle on argument binding: run the program, Script.infer on every
            parameter / element of *args / value of **kwargs; functions, methods, lambdas
+  flow     (props/c02_flow.py, gen/flowprog.py) the direct oracle on random programs with loops,
+           generator functions, nested blocks, closures, comprehensions, with/try, descriptors,
+           magic methods: executed, then Script.infer at every probe the run reached
 """
 import common
 from common import short
 from gen import pycore as P
+from props import c02_flow
 
 MODELS = ['PyCore', 'ArgBind']
 LEAN_TARGETS = ['JediModel.Props.C02', 'JediModel.Drivers.C02']
@@ -531,6 +535,7 @@ def programs(ctx):
 def run(ctx):
     from concurrent.futures import ThreadPoolExecutor
     from gen import argbind as A
+    flow = c02_flow.start(ctx)          # stream `flow` runs in worker processes meanwhile
     progs = programs(ctx)
     encs = [encode(p) for p in progs]
     reqs = [{'op': 'run', 'prog': e[0], 'fuel': FUEL} for e in encs]
@@ -625,6 +630,7 @@ def run(ctx):
         'come from harness/gen/pycore.py and harness/props/c02.py:encode (trusted)',
         'CPython is the ground truth for evalC; jedi for mayE',
     ]
+    c02_flow.finish(ctx, flow)
 
 
 WITNESSES = [
@@ -639,6 +645,8 @@ WITNESSES = [
 
 
 def replay(ctx, payload):
+    if payload.get('stream') == 'flow':
+        return c02_flow.replay(ctx, payload)
     import jedi
     inp = payload['input']
     print(inp['source'])
